@@ -204,7 +204,8 @@ def tainted_index(db, ctx):
 
 
 def _mentions_local(cond, lid):
-    for x, _ in walk(cond):
+    from ..db import walk_x
+    for x, _ in walk_x(cond):
         if x.get("k") == "Path" and x.get("res") == "local" and x.get("lid") == lid:
             return True
     return False
